@@ -3274,6 +3274,8 @@ class BSP:
 
         version = self.static_prop_version
         vers_num = self.static_prop_version.version
+        # The reader identifies the layout from the version in the game lump header, make that match.
+        self.game_lumps[LMP_ID_STATIC_PROPS].version = vers_num
         if version.is_lightmap:
             vers_num = 7
 
